@@ -262,24 +262,20 @@ class Facts:
         return False
 
 
-def run_xa(tus, cfg=None, st=None, tables=None, flat=True, root=REPO, compdb_root=None):
-    """Parse the given translation units of `root` and return Facts."""
+def _fnv(sv):
+    h = 1469598103934665603
+    for c in sv.encode():
+        h ^= c
+        h = (h * 1099511628211) & 0xFFFFFFFFFFFFFFFF
+    return "%016x" % h
+
+
+def _xa_into(sel, out, root, cfg=None, st=None, tables=None, flat=True):
+    """run xa on the compile-database entries `sel`, writing facts into directory `out`."""
     xa = ensure_xa()
-    ents, gen = compdb(compdb_root or root)
-    if compdb_root and compdb_root != root:
-        for e in ents:
-            e["command"] = e["command"].replace(compdb_root + "/", root + "/")
-            e["file"] = e["file"].replace(compdb_root + "/", root + "/")
-    want = set(tus)
-    sel = [e for e in ents if e["file"] in want]
-    missing = want - set(e["file"] for e in sel)
-    if missing:
-        raise AnalysisBroken("translation units not in the build: %s" % sorted(missing)[:5])
     work = scratch_dir()
     dbdir = os.path.join(work, "db")
-    out = os.path.join(work, "out")
     os.makedirs(dbdir)
-    os.makedirs(out)
     json.dump(sel, open(os.path.join(dbdir, "compile_commands.json"), "w"))
     env = dict(os.environ)
     env.update({"XA_ROOT": root, "XA_OUT": out, "XA_FLAT": "1" if flat else "0",
@@ -297,13 +293,42 @@ def run_xa(tus, cfg=None, st=None, tables=None, flat=True, root=REPO, compdb_roo
         for f, rc, outp in ex.map(one, [e["file"] for e in order]):
             if rc != 0:
                 errs.append((f, outp[-1500:]))
+    shutil.rmtree(work, ignore_errors=True)
     if errs:
         raise AnalysisBroken("xa failed on %d unit(s); first: %s\n%s" % (len(errs), errs[0][0], errs[0][1]))
+
+
+def _select(tus, root, compdb_root=None):
+    ents, gen = compdb(compdb_root or root)
+    if compdb_root and compdb_root != root:
+        for e in ents:
+            e["command"] = e["command"].replace(compdb_root + "/", root + "/")
+            e["file"] = e["file"].replace(compdb_root + "/", root + "/")
+    want = set(tus)
+    sel = [e for e in ents if e["file"] in want]
+    missing = want - set(e["file"] for e in sel)
+    if missing:
+        raise AnalysisBroken("translation units not in the build: %s" % sorted(missing)[:5])
+    return sel, want
+
+
+def _checked_facts(out, root, want):
     facts = Facts(out, root, sorted(want))
     done = set(u["file"] for u in facts.units if not u.get("errors"))
     for f in want:
         if os.path.relpath(f, root) not in done:
             raise AnalysisBroken("unit %s did not parse cleanly" % f)
+    return facts
+
+
+def run_xa(tus, cfg=None, st=None, tables=None, flat=True, root=REPO, compdb_root=None):
+    """Parse the given translation units of `root` and return Facts."""
+    sel, want = _select(tus, root, compdb_root)
+    work = scratch_dir()
+    out = os.path.join(work, "out")
+    os.makedirs(out)
+    _xa_into(sel, out, root, cfg, st, tables, flat)
+    facts = _checked_facts(out, root, want)
     shutil.rmtree(work, ignore_errors=True)
     return facts
 
@@ -328,11 +353,51 @@ def tree_hash(root=REPO):
 _LIB = {}
 
 
+def _sha_file(p):
+    with open(p, "rb") as fh:
+        return hashlib.sha256(fh.read()).hexdigest()[:20]
+
+
+def _shared_hash(root, tus):
+    """hash of everything a unit's facts depend on besides its own main file: the analyzer, the build configuration
+    and every header / included source under src/ (any file that is not itself a library unit)."""
+    tuset = set(tus)
+    h = hashlib.sha256()
+    h.update(open(XA_SRC, "rb").read())
+    h.update(_cmake_inputs_hash(root).encode())
+    for dirpath, dirs, files in os.walk(os.path.join(root, "src")):
+        dirs.sort()
+        for fn in sorted(files):
+            p = os.path.join(dirpath, fn)
+            if fn.endswith((".cpp", ".hpp", ".c", ".h")) and p not in tuset:
+                h.update(p[len(root):].encode())
+                with open(p, "rb") as fh:
+                    h.update(fh.read())
+    return h.hexdigest()[:20]
+
+
+def _prune(pattern, keep):
+    olds = sorted(glob.glob(os.path.join(CACHE, pattern)), key=os.path.getmtime)
+    for o in olds[:-keep]:
+        try:
+            if os.path.isdir(o):
+                shutil.rmtree(o, ignore_errors=True)
+            else:
+                os.remove(o)
+        except OSError:
+            pass
+
+
 def library_facts(root=REPO):
-    """flat facts of every library translation unit of `root`.  Re-parsed whenever
-    any source, header, CMake input or the analyzer changed (content hash); an
-    identical tree re-uses the facts extracted by an earlier check of the same
-    sweep."""
+    """flat facts of every library translation unit of `root`.
+
+    Two cache levels, both keyed by content only (never by time stamps):
+      facts-<tree hash>.pkl   the indexed facts of exactly this tree (any source, header, CMake input or the analyzer
+                              changed -> different key)
+      out-<shared hash>/      the raw per-unit fact files of a tree with the same headers/configuration/analyzer,
+                              with the content hash of each unit's main file; a tree that differs from it only in
+                              some .cpp files re-parses just those units (their facts depend on nothing else)
+    """
     import pickle
     key = tree_hash(root)
     if key in _LIB:
@@ -348,20 +413,68 @@ def library_facts(root=REPO):
         except Exception:
             f = None
     if f is None:
-        f = run_xa(library_tus(root), root=root)
+        tus = library_tus(root)
+        sel, want = _select(tus, root)
+        shared = _shared_hash(root, tus)
+        odir = os.path.join(CACHE, "out-" + shared)
+        mfile = os.path.join(odir, "MANIFEST.json")
+        work = scratch_dir()
+        out = os.path.join(work, "out")
+        cur = {os.path.relpath(t, root): _sha_file(t) for t in tus}
+        redo = sel
+        reused = 0
+        if os.path.exists(mfile):
+            try:
+                man = json.load(open(mfile))
+                os.utime(mfile, None)
+                os.utime(odir, None)
+                shutil.copytree(odir, out)
+                os.remove(os.path.join(out, "MANIFEST.json"))
+                redo = []
+                for e in sel:
+                    rel = os.path.relpath(e["file"], root)
+                    tf = os.path.join(out, "tu_%s.jsonl" % _fnv(rel))
+                    if man.get(rel) == cur[rel] and os.path.exists(tf):
+                        reused += 1
+                        continue
+                    if os.path.exists(tf):
+                        os.remove(tf)
+                    redo.append(e)
+                # units that no longer exist
+                for rel in man:
+                    if rel not in cur:
+                        tf = os.path.join(out, "tu_%s.jsonl" % _fnv(rel))
+                        if os.path.exists(tf):
+                            os.remove(tf)
+            except Exception:
+                shutil.rmtree(out, ignore_errors=True)
+                redo, reused = sel, 0
+        if not os.path.isdir(out):
+            os.makedirs(out)
+        if redo:
+            _xa_into(redo, out, root)
+        f = _checked_facts(out, root, want)
         f.cache_hit = False
+        f.reparsed = len(redo)
+        f.reused = reused
+        if not os.path.exists(mfile):
+            # first full extraction for this header/configuration state: keep the raw fact files
+            tmpd = odir + ".tmp%d" % os.getpid()
+            shutil.rmtree(tmpd, ignore_errors=True)
+            shutil.copytree(out, tmpd)
+            json.dump(cur, open(os.path.join(tmpd, "MANIFEST.json"), "w"))
+            try:
+                os.rename(tmpd, odir)
+            except OSError:
+                shutil.rmtree(tmpd, ignore_errors=True)
+            _prune("out-*", 2)
+        shutil.rmtree(work, ignore_errors=True)
         tmp = path + ".tmp%d" % os.getpid()
         sys.setrecursionlimit(100000)
         with open(tmp, "wb") as fh:
             pickle.dump(f, fh, protocol=4)
         os.replace(tmp, path)
-        # keep at most four fact caches (least recently used go first)
-        olds = sorted(glob.glob(os.path.join(CACHE, "facts-*.pkl")), key=os.path.getmtime)
-        for o in olds[:-4]:
-            try:
-                os.remove(o)
-            except OSError:
-                pass
+        _prune("facts-*.pkl", 4)
     else:
         f.cache_hit = True
     _LIB[key] = f
